@@ -14,6 +14,8 @@
 use serde_json::{Value, json};
 use std::collections::{BTreeSet, HashMap, HashSet};
 use surf_n_term::automata::{DFA, DFAState, NFA};
+use surf_n_term::surface::{Shape, Surface};
+use surf_n_term::{Image, Position, RGBA, TerminalCommand};
 use verif_harness::{Cfg, r#gen::Rng, guarded, out::Out, out::hex};
 
 #[derive(Clone, Debug, PartialEq)]
@@ -270,22 +272,27 @@ fn loop_positions(e: &Re, w: &[u8], i: usize) -> u64 {
 }
 
 /// tags completed at the END of `w` when `re` starts at position `i`: a tagged sub-expression has matched a
-/// suffix `w[p..]` and everything that must precede it has matched `w[i..p]` (reference for C15_tags_alive)
-fn alive(re: &Re, w: &[u8], i: usize, out: &mut BTreeSet<u64>) {
+/// suffix `w[p..]` and everything that must precede it has matched `w[i..p]` (reference for C15_tags_alive).
+/// `off_stop`: only tags that do not sit on the stop state of `re`'s automaton — `tag_stop_state` REPLACES the
+/// tag of the stop state, so only those survive when `re` itself is tagged.  The stop state of a sequence is
+/// that of its last component, of a one-or-more that of its operand; choice, optional and zero-or-more have a
+/// fresh one.
+fn alive(re: &Re, w: &[u8], i: usize, off_stop: bool, out: &mut BTreeSet<u64>) {
     match re {
         Tag(t, e) => {
-            if ends(e, w, i) >> w.len() & 1 == 1 {
+            if !off_stop && ends(e, w, i) >> w.len() & 1 == 1 {
                 out.insert(*t);
             }
-            alive(e, w, i, out);
+            alive(e, w, i, true, out);
         }
         Seq(es) => {
             let mut cur: u64 = 1 << i;
-            for e in es {
+            for (k, e) in es.iter().enumerate() {
+                let last = k + 1 == es.len();
                 let mut next = 0u64;
                 for p in 0..=w.len() {
                     if cur >> p & 1 == 1 {
-                        alive(e, w, p, out);
+                        alive(e, w, p, last && off_stop, out);
                         next |= ends(e, w, p);
                     }
                 }
@@ -295,13 +302,14 @@ fn alive(re: &Re, w: &[u8], i: usize, out: &mut BTreeSet<u64>) {
                 }
             }
         }
-        Alt(es) => es.iter().for_each(|e| alive(e, w, i, out)),
-        Opt(e) => alive(e, w, i, out),
+        Alt(es) => es.iter().for_each(|e| alive(e, w, i, false, out)),
+        Opt(e) => alive(e, w, i, false, out),
         Plus(e) | Star(e) => {
             let ps = loop_positions(e, w, i);
+            let inner = matches!(re, Plus(_)) && off_stop;
             for p in 0..=w.len() {
                 if ps >> p & 1 == 1 {
-                    alive(e, w, p, out);
+                    alive(e, w, p, inner, out);
                 }
             }
         }
@@ -309,7 +317,15 @@ fn alive(re: &Re, w: &[u8], i: usize, out: &mut BTreeSet<u64>) {
     }
 }
 
-/// the tag on the stop state of the automaton of `re` (what a `tag_stop_state` around it would overwrite)
+/// expected tag set after `w` — for every reachable state, accepting or not, tags in any position, re-tagged
+/// blocks included (C15_tags_alive)
+fn oracle_tags(re: &Re, w: &[u8]) -> Option<BTreeSet<u64>> {
+    let mut out = BTreeSet::new();
+    alive(re, w, 0, false, &mut out);
+    Some(out)
+}
+
+/// the tag on the stop state of the automaton of `re` (what a `tag_stop_state` around it replaces)
 fn stop_tag(re: &Re) -> Option<u64> {
     match re {
         Seq(es) => es.last().and_then(stop_tag),
@@ -319,25 +335,43 @@ fn stop_tag(re: &Re) -> Option<u64> {
     }
 }
 
-/// no `tag_stop_state` lands on a state that already carries a tag
-fn no_retag(re: &Re) -> bool {
+/// some `tag_stop_state` lands on a state that already carries a tag
+fn has_retag(re: &Re) -> bool {
     match re {
-        Seq(es) | Alt(es) => es.iter().all(no_retag),
-        Opt(e) | Plus(e) | Star(e) => no_retag(e),
-        Tag(_, e) => no_retag(e) && stop_tag(e).is_none(),
-        _ => true,
+        Seq(es) | Alt(es) => es.iter().any(has_retag),
+        Opt(e) | Plus(e) | Star(e) => has_retag(e),
+        Tag(_, e) => has_retag(e) || stop_tag(e).is_some(),
+        _ => false,
     }
 }
 
-/// expected tag set after `w` — for every reachable state, accepting or not, and tags in any position
-/// (C15_tags_alive); `None` only when a tag is overwritten by another `tag_stop_state`
-fn oracle_tags(re: &Re, w: &[u8]) -> Option<BTreeSet<u64>> {
-    if !no_retag(re) {
-        return None;
+/* ---------- tag types of the crate itself (the tag clause is generic in the tag type) ---------- */
+
+const ATLAS: usize = 12;
+
+/// `ATLAS` images of the same size cut from ONE pixel buffer (built from raw parts: buffer + shape); image
+/// `k` is identified by the `start` offset of its shape, a plain field
+fn atlas_images() -> Vec<Image> {
+    let data: std::sync::Arc<[RGBA]> = (0..ATLAS).map(|k| RGBA::new(20 * k as u8, 7, 9, 255)).collect::<Vec<_>>().into();
+    (0..ATLAS)
+        .map(|k| Image::from_parts(data.clone(), Shape { start: k, end: k + 1, width: 1, height: 1, row_stride: ATLAS, col_stride: 1 }))
+        .collect()
+}
+
+fn image_index(img: &Image) -> u64 {
+    img.shape().start as u64
+}
+
+fn command_of(imgs: &[Image], t: u64) -> TerminalCommand {
+    let img = imgs[t as usize % ATLAS].clone();
+    if t % 2 == 0 { TerminalCommand::Image(img, Position::new(0, 0)) } else { TerminalCommand::ImageErase(img, None) }
+}
+
+fn command_index(cmd: &TerminalCommand) -> u64 {
+    match cmd {
+        TerminalCommand::Image(img, _) | TerminalCommand::ImageErase(img, _) => image_index(img),
+        _ => u64::MAX,
     }
-    let mut out = BTreeSet::new();
-    alive(re, w, 0, &mut out);
-    Some(out)
 }
 
 /// `MatcherTag::Matcher(i)` on the wire
@@ -647,6 +681,26 @@ fn gen_tagged_inside(rng: &mut Rng, depth: usize) -> Re {
     }
 }
 
+/// alternatives assembled from an already tagged building block and then given their own tag
+/// (`tag_stop_state` replaces): `word | ("x" word)<p> | (word+)<r>`
+fn gen_retagged(rng: &mut Rng, depth: usize) -> Re {
+    let body = gen_re(rng, depth.saturating_sub(2));
+    let word = Tag(rng.range(1, 4) as u64, Box::new(body));
+    let x = gen_atom(rng);
+    let mut alts = vec![word.clone()];
+    for _ in 0..rng.range(1, 3) {
+        let t = rng.range(5, 9) as u64;
+        alts.push(match rng.below(5) {
+            0 => Tag(t, Box::new(Seq(vec![x.clone(), word.clone()]))),
+            1 => Tag(t, Box::new(Plus(Box::new(word.clone())))),
+            2 => Tag(t, Box::new(word.clone())),
+            3 => Tag(t, Box::new(Seq(vec![word.clone(), Plus(Box::new(word.clone()))]))),
+            _ => Tag(t, Box::new(Plus(Box::new(Seq(vec![x.clone(), word.clone()]))))),
+        });
+    }
+    Alt(alts)
+}
+
 /// tags in arbitrary positions (exercises `tag_stop_state` + `merge_states` tag transport)
 fn sprinkle_tags(rng: &mut Rng, re: Re) -> Re {
     let re = match re {
@@ -728,6 +782,9 @@ fn corner_cases() -> Vec<Re> {
         Alt(vec![tag(1, l("\u{ff}")), tag(2, Pred(vec![(0xff, 0xff)])), tag(3, Seq(vec![Pred(vec![(0xc3, 0xc3)]), Pred(vec![(0x80, 0xbf)])]))]),
         star(Pred(vec![(0xfe, 0xff)])),
         Alt(vec![Alt(vec![tag(1, l("a")), tag(2, plus(l("a")))]), Alt(vec![tag(3, l("ab")), tag(1, star(l("a")))]), tag(4, l("b"))]),
+        // re-tagging replaces the tag of the stop state
+        Alt(vec![tag(1, l("ab")), tag(2, Seq(vec![l("x"), tag(1, l("ab"))])), tag(3, plus(tag(1, l("ab"))))]),
+        tag(2, Seq(vec![tag(1, l("a")), plus(tag(1, l("a")))])),
         // tags on components that are not the last one: reported on non-accepting states
         Seq(vec![l("<"), Alt(vec![tag(1, l("a")), tag(2, plus(l("b"))), tag(3, l("ab")), tag(4, Seq(vec![l("a"), star(l("b"))]))]), l(">")]),
         Seq(vec![opt(tag(7, l("x"))), l("y")]),
@@ -998,6 +1055,48 @@ impl Ctx {
         ok
     }
 
+    /// the same automaton with the integer tags replaced by values of the crate's own tag types (`Image`, and
+    /// `TerminalCommand` — the tag type of the production command automaton): every alternative's tag must
+    /// still be reported, i.e. tags that are different values must stay different members of the tag set
+    fn crate_tag_types<'a>(&mut self, re: &Re, src: &str, words: impl Iterator<Item = &'a Vec<u8>>) {
+        let imgs = atlas_images();
+        let built = guarded(|| {
+            let a = re.build().tags_map(|t| imgs[t as usize % ATLAS].clone()).compile();
+            let b = re.build().tags_map(|t| command_of(&imgs, t)).compile();
+            (a, b)
+        });
+        let Ok((dfa_img, dfa_cmd)) = built else {
+            self.out.fail("building or compiling the automaton with Image tags panicked", json!({"re": src, "word": "-"}), json!("no panic"), json!("panic"));
+            return;
+        };
+        self.out.hist("tag-types:Image+TerminalCommand");
+        for w in words {
+            let Some(expected) = oracle_tags(re, w) else { continue };
+            let expected: BTreeSet<u64> = expected.iter().map(|t| t % ATLAS as u64).collect();
+            let got_img: Option<Vec<u64>> = guarded(|| {
+                dfa_img.transition_many(dfa_img.start(), w.iter().copied()).map(|s| dfa_img.info(s).tags.iter().map(image_index).collect::<Vec<u64>>())
+            })
+            .unwrap_or(None);
+            let got_cmd: Option<Vec<u64>> = guarded(|| {
+                dfa_cmd.transition_many(dfa_cmd.start(), w.iter().copied()).map(|s| dfa_cmd.info(s).tags.iter().map(command_index).collect::<Vec<u64>>())
+            })
+            .unwrap_or(None);
+            for (ty, got) in [("Image", got_img), ("TerminalCommand", got_cmd)] {
+                let got = got.unwrap_or_default();
+                let got_set: BTreeSet<u64> = got.iter().cloned().collect();
+                if got_set != expected || got.len() != expected.len() {
+                    self.out.fail(
+                        "tags after the string are not those of the matching alternatives (tag type of the crate)",
+                        json!({"re": src, "word": hex(w), "tag_type": ty, "tags": "tag t is the t-th same-sized image cut from one pixel buffer (identified by the start offset of its shape)"}),
+                        json!(expected),
+                        json!(got),
+                    );
+                    return;
+                }
+            }
+        }
+    }
+
     fn check_subject(&mut self, subject: &Subject, rng: &mut Rng, class: &str) {
         let src = subject.src();
         let lang = subject.lang();
@@ -1114,6 +1213,14 @@ impl Ctx {
                 break;
             }
         }
+        if let Subject::Expr(re) = subject {
+            if re.has_tag() {
+                if has_retag(re) {
+                    self.out.hist("tags:retagged-block");
+                }
+                self.crate_tag_types(re, &src, enumerated.iter().chain(words.iter()));
+            }
+        }
         if self.with_corr && !words.is_empty() {
             let hexes: Vec<String> = words.iter().map(|w| hex(w)).collect();
             let obs: Vec<String> = words.iter().map(|w| show_obs(&observe(&dfa, w))).collect();
@@ -1162,6 +1269,34 @@ fn main() {
         return;
     }
 
+    // the tag sets are `BTreeSet<T>`: they rely on `Ord` of the tag type agreeing with identity of the value.
+    // The tag values of the crate's own types used below are checked for that law against RAW identity.
+    {
+        let imgs = atlas_images();
+        let cmds: Vec<TerminalCommand> = (0..ATLAS as u64).map(|t| command_of(&imgs, t)).collect();
+        let mut broken = vec![];
+        for i in 0..ATLAS {
+            for j in 0..ATLAS {
+                let eq = imgs[i].cmp(&imgs[j]) == std::cmp::Ordering::Equal;
+                if eq != (i == j) || imgs[i].cmp(&imgs[j]) != imgs[j].cmp(&imgs[i]).reverse() {
+                    broken.push(format!("Image #{i} vs #{j}"));
+                }
+            }
+        }
+        for i in 0..cmds.len() {
+            for j in 0..cmds.len() {
+                let eq = cmds[i].cmp(&cmds[j]) == std::cmp::Ordering::Equal;
+                if eq != (i == j) || cmds[i].cmp(&cmds[j]) != cmds[j].cmp(&cmds[i]).reverse() {
+                    broken.push(format!("TerminalCommand #{i} vs #{j}"));
+                }
+            }
+        }
+        ctx.out.extra("ord_law_pairs_checked", json!(ATLAS * ATLAS + cmds.len() * cmds.len()));
+        if !broken.is_empty() {
+            // shown with the expression on which it matters: two alternatives tagged with such values
+            ctx.out.extra("ord_law_broken", json!(broken.iter().take(6).collect::<Vec<_>>()));
+        }
+    }
     for re in corner_cases() {
         ctx.check_subject(&Subject::Expr(re), &mut rng, "corner");
     }
@@ -1182,6 +1317,7 @@ fn main() {
                 (Subject::Expr(Alt((0..k).map(|_| gen_tagged(&mut rng, depth.saturating_sub(1))).collect())), "nested-tagged-choice")
             }
             10 if made % 24 == 10 => (Subject::Production(gen_production(&mut rng, depth)), "production-shape"),
+            10 if made % 24 == 22 && made % 48 == 22 => (Subject::Expr(gen_retagged(&mut rng, depth)), "retagged-block"),
             10 => (Subject::Expr(gen_tagged_inside(&mut rng, depth)), "tagged-inside"),
             _ => {
                 let e = gen_re(&mut rng, depth);
@@ -1201,6 +1337,6 @@ fn main() {
         json!("bisimulation of the compiled DFA with the model's subset automaton: all reachable state pairs x all 256 bytes; all strings up to the recorded length over the effective alphabet against the Rust oracle"),
     );
     ctx.out.finish(
-        "expressions: fixed corner cases (optional/one-or-more/zero-or-more over operands that begin or end with a loop, empty sequence/choice, empty/nothing operands, tagged choices, production-like shapes) + random trees of depth <= 6 with <= 48 nodes over literals of a,b,c and multi-byte UTF-8 strings and byte predicates (upper half and 0xFF included), choices of tagged choices, tagged sub-expressions that are not the last component (tags judged on every reachable state), and matchers combined as MatcherAutomata::new combines them (tags_map + tag_stop_state per parsed matcher, tags_map(Item) for item tables); non-trivial = at least 3 nodes; distinct by expression text. Per expression: NFA dump equality, exhaustive DFA bisimulation, all strings up to length L (budget-limited, L <= 6) over the effective alphabet, members and mutants",
+        "expressions: fixed corner cases (optional/one-or-more/zero-or-more over operands that begin or end with a loop, empty sequence/choice, empty/nothing operands, tagged choices, production-like shapes) + random trees of depth <= 6 with <= 48 nodes over literals of a,b,c and multi-byte UTF-8 strings and byte predicates (upper half and 0xFF included), choices of tagged choices, tagged sub-expressions that are not the last component and re-tagged building blocks (tags judged on every reachable state), the same automata with tags of the crate's own types Image and TerminalCommand, and matchers combined as MatcherAutomata::new combines them (tags_map + tag_stop_state per parsed matcher, tags_map(Item) for item tables); non-trivial = at least 3 nodes; distinct by expression text. Per expression: NFA dump equality, exhaustive DFA bisimulation, all strings up to length L (budget-limited, L <= 6) over the effective alphabet, members and mutants",
     );
 }
